@@ -39,7 +39,13 @@ def setup(tier, seed):
         x0 = np.array(x0, float)
         c0 = 0.5 * float(np.sum(np.asarray(fun(x0.copy()), float) ** 2))
         res = real(fun, x0, *a, **kw)
-        _REC["calls"].append({"cost0": c0, "cost1": float(res.cost), "x0": x0, "x1": np.array(res.x, float), "bounds": kw.get("bounds")})
+        region = None
+        try:  # the fitted region chosen by the library (free variable of the residual function)
+            free = dict(zip(fun.__code__.co_freevars, [c.cell_contents for c in fun.__closure__]))
+            region = np.array(free["mask"], bool, copy=True)
+        except Exception:
+            pass
+        _REC["calls"].append({"cost0": c0, "cost1": float(res.cost), "x0": x0, "x1": np.array(res.x, float), "bounds": kw.get("bounds"), "region": region})
         return res
 
     ns = types.SimpleNamespace(**{k: getattr(so, k) for k in dir(so) if not k.startswith("_")})
@@ -56,6 +62,8 @@ def grids(tier):
         out.append({"kind": "cart", "shape": [8, 8, 8], "dx": [1.0, 1.0, 1.0], "origin": [0.0, 0.0, 0.0], "periodic": list(mask)})
     out.append({"kind": "polar", "n": 12, "R": 12.0})
     out.append({"kind": "sph", "n": 12, "R": 12.0})
+    out.append({"kind": "sph", "n": 40, "R": 10.0, "fine": True})
+    out.append({"kind": "polar", "n": 40, "R": 10.0, "fine": True})
     for pz in (False, True):
         out.append({"kind": "cyl", "shape": [8, 16], "R": 8.0, "z": [0.0, 16.0], "periodic_z": pz})
     return out
@@ -64,9 +72,13 @@ def grids(tier):
 def blocks(tier, seed):
     out = []
     for gi, g in enumerate(grids(tier)):
-        for img in ("clean", "noisy", "noise", "constant", "affine"):
+        for img in (("clean", "noisy", "noise", "constant", "affine") if not g.get("fine") else ()):
             for lv in LEVELS:
                 out.append({"grid": g, "image": img, "levels": lv, "variant": seed % 3, "tier": tier})
+        # image that the model cannot represent exactly (superposition of two profiles) x lattice of (radius, width) candidates:
+        # candidates close to the optimum of the plain squared deviation are the ones a wrong objective would worsen
+        for lv in ("fixed", "auto+fit"):
+            out.append({"grid": g, "image": "mix", "levels": lv, "variant": seed % 3, "tier": tier})
     return out
 
 
@@ -77,6 +89,8 @@ def truth_for(g):
         c = [o + (n * 0.45 + 0.2) * d for o, n, d in zip(g["origin"], g["shape"], g["dx"])]
         return c, (3.1 if dim == 2 else 2.3), 1.0
     if k in ("polar", "sph"):
+        if g.get("fine"):
+            return [0.0] * (2 if k == "polar" else 3), 4.6, 1.0
         return [0.0] * (2 if k == "polar" else 3), 5.3, 1.2
     return [0.0, 0.0, 7.3], 3.2, 1.0
 
@@ -106,6 +120,14 @@ def candidates(g, tier, img):
 
 def cases(block):
     g = block["grid"]
+    if block["image"] == "mix":
+        if geom.dim_of(g) == 3 and g["kind"] == "cart" and block["tier"] != "thorough":
+            return
+        n = 9 if g.get("fine") else 7
+        for i in range(n):
+            for j in range(n):
+                yield {"grid": g, "image": "mix", "levels": block["levels"], "cand": ["DiffuseDroplet", 0, None, f"scan:{i}:{j}"], "variant": block["variant"]}
+        return
     for cand in candidates(g, block["tier"], block["image"]):
         yield {"grid": g, "image": block["image"], "levels": block["levels"], "cand": list(cand), "variant": block["variant"]}
 
@@ -130,7 +152,7 @@ def run_case(case, ctx):
     truth = dm.DiffuseDroplet(np.array(c, float), R, w)
     img = case["image"]
     clsname, modes, cw, state = case["cand"]
-    tags = {"grid": kind, "dim": dim, "image": img, "levels": case["levels"], "cls": clsname, "state": state}
+    tags = {"grid": kind, "dim": dim, "image": img, "levels": case["levels"], "cls": clsname, "state": state.split(":")[0]}
     base = truth.get_phase_field(grid).data
     a, b = 1.0, 0.0
     if img == "clean":
@@ -141,6 +163,8 @@ def run_case(case, ctx):
         data = noise_pattern(grid.shape, case["variant"])
     elif img == "constant":
         data = np.full(grid.shape, 0.3)
+    elif img == "mix":
+        data = 0.5 * dm.DiffuseDroplet(np.array(c, float), 0.65 * R, w).get_phase_field(grid).data + 0.5 * dm.DiffuseDroplet(np.array(c, float), 1.3 * R, w).get_phase_field(grid).data
     else:
         a, b = 2.0, -1.5
         data = b + a * base
@@ -156,6 +180,14 @@ def run_case(case, ctx):
             cc = [0.0, 0.0, c[2] + 0.7]
     elif state == "wrong-radius":
         cR = 0.7 * R
+    elif state.startswith("scan"):
+        _, i, j = state.split(":")
+        if g.get("fine"):
+            cR = 3.5 + 0.25 * int(i) + 0.01 * case["variant"]
+            cw = 0.6 + 0.3 * int(j)
+        else:
+            cR = R * (0.55 + 0.15 * int(i) + 0.01 * case["variant"])
+            cw = w * (0.6 + 0.35 * int(j))
     elif state == "outside":
         L = geom.cart_lengths(g)
         cc = [x + (L[i] if g["periodic"][i] else 0.0) for i, x in enumerate(cc)]
@@ -198,6 +230,26 @@ def run_case(case, ctx):
     if calls:
         c0, c1 = calls[0]["cost0"], calls[0]["cost1"]
         ctx.check("C04.cost", c1 <= c0 * (1 + 1e-9) + 1e-12, {"cost_start": c0, "cost_end": c1}, tags)
+        # the same comparison with the plain squared deviation computed by the harness over the fitted region
+        region = calls[0]["region"]
+        if region is not None and region.shape == tuple(grid.shape):
+            start = cand0 if isinstance(cand0, dm.DiffuseDroplet) else dm.DiffuseDroplet.from_droplet(cand0)
+            if start.interface_width is None:
+                start.interface_width = float(grid.typical_discretization)
+            dm_ = data[region]
+            if "adjust_values" in args:
+                (l0, r0), (l1, r1) = calls[0]["x0"][-2:], calls[0]["x1"][-2:]
+                if len(calls[0]["x0"]) != len(np.asarray(start._data_array)[[i for i in range(len(start._data_array)) if i not in cons_idx(grid)]]) + 2:
+                    l0 = l1 = (b if lv.startswith("fixed") else float(dm_.min()))
+                    r0 = r1 = ((a) if lv.startswith("fixed") else float(dm_.max() - dm_.min()))
+            else:
+                l0 = l1 = b if lv.startswith("fixed") else float(dm_.min())
+                r0 = r1 = a if lv.startswith("fixed") else float(dm_.max() - dm_.min())
+            dev0 = float(np.sum((l0 + r0 * start._get_phase_field(grid)[region] - dm_) ** 2))
+            dev1 = float(np.sum((l1 + r1 * out._get_phase_field(grid)[region] - dm_) ** 2))
+            ctx.check("C04.deviation", dev1 <= dev0 * (1 + 1e-9) + 1e-12, {"deviation_start": dev0, "deviation_end": dev1}, tags)
+        else:
+            ctx.count("fit-region-not-observed")
         if c0 > 1e-12:
             ctx.count("non-zero-initial-cost")
         if c1 < c0 * (1 - 1e-6):
@@ -247,6 +299,10 @@ def run_case(case, ctx):
         ctx.check("C04.fixpoint", bool(np.all(np.abs(v1 - v0) <= 1e-6 * np.maximum(1.0, np.abs(v0)))), {"candidate": v0, "returned": v1}, tags)
 
 
+def cons_idx(grid):
+    return set(int(i) for i in grid.coordinate_constraints)
+
+
 def expected_positive(tier):
-    return ["C04.cost", "C04.class", "C04.bounds", "C04.constrained", "C04.wrapped", "C04.image-unmodified", "C04.fixpoint", "non-zero-initial-cost", "fit-improved",
+    return ["C04.cost", "C04.deviation", "C04.class", "C04.bounds", "C04.constrained", "C04.wrapped", "C04.image-unmodified", "C04.fixpoint", "non-zero-initial-cost", "fit-improved",
             "constrained-coordinates", "candidate-outside-box"]
